@@ -13,6 +13,7 @@ REPO = os.environ.get('MVS_REPO', '/repo')
 CACHE = os.path.join(VERIF, '.cache')
 DRIVER = os.path.join(VERIF, 'driver', 'target', 'release', 'mvs-driver')
 TARGET = os.path.join(CACHE, 'target')
+SCRATCH_MODE = 'MVS_REPO' in os.environ and os.path.realpath(os.environ['MVS_REPO']) != '/repo'
 
 # workspace crate units that must be present in the fact base (lib units of the crates any rule
 # table names; the full list is asserted as a floor on the number of units)
@@ -73,7 +74,11 @@ def ensure_facts(verbose=True):
     os.makedirs(CACHE, exist_ok=True)
     t0 = time.time()
     th, nfiles = tree_hash()
-    fdir = os.path.join(CACHE, 'facts', th)
+    # variants analysed by the sensitivity step live apart so that they never evict /repo's facts
+    fbase = os.path.join(CACHE, 'facts-scratch' if SCRATCH_MODE else 'facts')
+    fdir = os.path.join(fbase, th)
+    if SCRATCH_MODE and os.path.exists(os.path.join(CACHE, 'facts', th, '.complete')):
+        fdir = os.path.join(CACHE, 'facts', th)     # identical tree content: identical facts
     marker = os.path.join(fdir, '.complete')
     if os.path.exists(marker):
         return fdir, th, {'reused': True, 'hash_s': round(time.time() - t0, 2), 'files_hashed': nfiles}
@@ -123,7 +128,7 @@ def ensure_facts(verbose=True):
             raise SystemExit(2)
         with open(marker, 'w') as f:
             json.dump({'tree': th, 'units': units, 'analysis_s': round(time.time() - t1, 1)}, f)
-        prune_old_facts(keep=th)
+        prune_old_facts(fbase, keep=th, n=1 if SCRATCH_MODE else 4)
         return fdir, th, {'reused': False, 'analysis_s': round(time.time() - t1, 1), 'files_hashed': nfiles}
     finally:
         fcntl.flock(lock, fcntl.LOCK_UN)
@@ -144,8 +149,7 @@ def workspace_member_names():
     return names
 
 
-def prune_old_facts(keep, n=4):
-    base = os.path.join(CACHE, 'facts')
+def prune_old_facts(base, keep, n=4):
     ds = [d for d in os.listdir(base) if os.path.isdir(os.path.join(base, d)) and d != keep]
     ds.sort(key=lambda d: os.path.getmtime(os.path.join(base, d)))
     for d in ds[:-n] if len(ds) > n else []:
@@ -249,6 +253,19 @@ def finish(report, ws, meta, t0, seed):
         'wall_s': round(time.time() - t0, 2),
         'violations': len(new),
     }
+    sens = meta.get('sensitivity')
+    if sens is not None:
+        ev['coverage']['checker_sensitivity'] = {
+            'what': 'thorough tier only: every recorded semantic mutation, behaviour-preserving edit and kept seeded '
+                    'change of this property applied (one at a time) to a scratch copy of the current tree and '
+                    're-analysed with the same driver and rules; never affects the verdict on /repo',
+            'mutations_applied': sens['mutations'], 'mutations_fired': sens['fired'],
+            'seeded_changes_applied': sens['seeds'], 'seeded_changes_fired': sens['seeds_fired'],
+            'benign_edits_applied': sens['benign'], 'benign_edits_silent': sens['silent'],
+            'stale_skipped': sens['stale'], 'missed': sens['missed'], 'false_alarms': sens['false_alarms'],
+            'variants': sens['variants'],
+        }
+        ev['coverage']['programs'] = 1 + sens['mutations'] + sens['seeds'] + sens['benign']
     if not os.environ.get('MVS_NO_EVIDENCE'):
         with open(os.path.join(VERIF, 'evidence', '%s.json' % prop), 'w') as f:
             json.dump(ev, f, indent=1)
